@@ -1,23 +1,29 @@
 /-
 E12 — persistent parser state (C09).
 
-What an `ArgumentParser` (and the process) remembers between two calls, and what each
-operation of the public API does to it, in the order the code does it NOW
-(jsonargparse/_core.py, _actions.py, _typehints.py, _common.py, _completions.py).
+What an `ArgumentParser` (and the process) remembers between two calls, and what each operation of the public
+API does to it, in the order the code does it NOW (jsonargparse/_core.py, _actions.py, _typehints.py,
+_common.py, _completions.py, _link_arguments.py).
 
-Carriers (the only pieces of state that survive a call):
-  per parser   pending     `parser.print_config`          set by the --print_config action, consumed later
-               lastArgs    `parser.args`                  last argv, read by the `--x.help Class` action
-               subArgs     `subparser.args`               same, on the sub-command parsers
-               shtabAdded  lazily added --print_shtab     first parse_args adds the action
+Carriers (`World`; the only pieces of state that survive a call):
+  per parser   pending     `parser.print_config`            set by the --print_config action, consumed later
+               lastArgs    `parser.args`                    last argv (application parser AND each sub-command
+                                                            parser), read by the `--x.help Class` action
+               shtabAdded  lazily added --print_shtab       the first parse_args adds the action
                linked      sub_add_kwargs['linked_targets'] on the parser's typed actions
-               wired       sub-parser ↔ parent wiring     (parent_parser / subcommand attributes)
-               dcDefault   sub_add_kwargs['default']      remembered by the dataclass branch of adapt_typehints
-  process      parseKwargs / subclassArgParser / dumpKwargs   context variables set on entry, never reset
-               lenient / parentParser                      parser_context variables (set + reset by token)
+               wired       sub-parser <-> parent wiring     (parent_parser / subcommand attributes)
+               dcDefault   sub_add_kwargs['default']        what the dataclass branch of adapt_typehints may store
+  process      parseKwargs / subclassArgParser / dumpKwargs context variables set on entry, never reset
+               lenient / parentParser                       parser_context variables (set + reset by token)
 
-`Facts` are properties of the source text which the extractor regenerates on every run
-(Gen/PState.lean); `step` consults them, so that a source edit which changes a fact changes the model.
+`Facts` are properties of the source text which the extractor regenerates on every run (Gen/PState.lean);
+`step` consults them, so a source edit that changes a fact changes the model.  Where a fact is false the model
+does what the edited source would do (no `finally`: the reset is skipped on exceptions; a write that is not made
+on entry is made after the read; a write that goes to the action's own dict persists).
+
+Granularity: an argv is a list of `Tok`s (what each element does to the carriers), a non-argv input a list of
+`VTok`s, followed by a `Tail` (what `_parse_common` / validation / serialisation meet).  Which values are
+acceptable is NOT modelled: failure positions are part of the operation.
 -/
 namespace Jap.PState
 
